@@ -107,7 +107,7 @@ BUILTIN = {
     ("function", "none", "none"): ("sys", "addaudithook"),
     ("attribute",): ("errno", "EPERM"),
 }
-CASE_KEYS = ["dfield", "part", "origin", "kind", "host", "mname", "doc", "cwdrel", "bases", "deco", "pann", "pdef", "pdoc", "ret", "val", "ann",
+CASE_KEYS = ["guard", "dfield", "part", "origin", "kind", "host", "mname", "doc", "cwdrel", "bases", "deco", "pann", "pdef", "pdoc", "ret", "val", "ann",
              "where", "alno", "resolved", "slot", "spine", "leaf", "section"]
 
 
@@ -257,17 +257,28 @@ def layout(case: dict, idx: int, lean: bool = False) -> dict:
     if kind == "module":
         files[f"{pkg}/{case['mname']}.py"] = "\n".join(_docline(doc_text(case), "")) + "\n"
         names = [case["mname"]]
+    elif kind != "root" and case.get("guard") == "stub":
+        # the focus exists only in the sibling stub file: the loader merges it into the module (runtime=False)
+        files[f"{pkg}/__init__.pyi"] = "\n".join(focus_lines(case, "", pkg)) + "\n"
+        names = [case["mname"]]
     elif kind != "root":
+        guarded = case.get("guard") == "typecheck"
+        if guarded:
+            body.append("from typing import TYPE_CHECKING")
         if case["host"] == "dataclass":
             body += ["from dataclasses import MISSING, dataclass, field", "@dataclass", "class H:"]
             body += focus_lines(case, "    ", pkg)
             names = ["H", "__init__"]
+        elif case["host"] == "init":
+            # the focus is defined inside H.__init__: the visitor stores it as a member of that function
+            body += ["class H:", "    def __init__(self):"] + focus_lines(case, "        ", pkg)
+            names = ["H", "__init__", case["mname"]]
         elif case["host"] == "class":
             body.append("class H:")
-            body += focus_lines(case, "    ", pkg)
+            body += ["    if TYPE_CHECKING:"] * guarded + focus_lines(case, "        " if guarded else "    ", pkg)
             names = ["H", case["mname"]]
         else:
-            body += focus_lines(case, "", pkg)
+            body += ["if TYPE_CHECKING:"] * guarded + focus_lines(case, "    " if guarded else "", pkg)
             names = [case["mname"]]
     files[f"{pkg}/__init__.py"] = "\n".join(body) + "\n"
     if kind == "alias" and origin == "static":
@@ -494,11 +505,12 @@ def diff_snapshots(a: dict, b: dict) -> list:
     for path in sorted(set(a) | set(b)):
         ra, rb = a.get(path), b.get(path)
         if ra is None or rb is None:
-            out.append(((ra or rb)["kind"], "<object>", "data", path))
+            parent = (a if rb is None else b).get(path.rsplit(".", 1)[0], {}).get("kind", "?")
+            out.append(((ra or rb)["kind"], "<object>", "data", path, parent))
             continue
         for k in sorted(set(ra) | set(rb)):
             if ra.get(k) != rb.get(k):
-                out.append((ra["kind"], k, "expr" if k in EXPR_FIELDS else "data", path))
+                out.append((ra["kind"], k, "expr" if k in EXPR_FIELDS else "data", path, ""))
     return out
 
 
@@ -577,6 +589,7 @@ def evaluate(case: dict, idx: int, base: str, schema: dict | None = None, want_c
             loader.resolve_aliases(implicit=True, external=False)
             res["alias_resolved"] = bool(focus.is_alias and focus.resolved)
         res["kinds"] = [("alias" if o.is_alias else o.kind.value) for o in objs]
+        res["runtime"] = None if focus.is_alias else bool(focus.runtime)
 
         # ---- as_json in both forms -------------------------------------------------------------------
         enc = {}
@@ -602,8 +615,11 @@ def evaluate(case: dict, idx: int, base: str, schema: dict | None = None, want_c
                     dec = dict(exc_sig(exc), ok=False)
             res["dec"] = dec
             if dec["ok"]:
-                robjs = _chain(reloaded, lay["real_names"])
-                res["names_after"] = names_of(robjs[-1], griffe)
+                try:
+                    robjs = _chain(reloaded, lay["real_names"])
+                    res["names_after"] = names_of(robjs[-1], griffe)
+                except KeyError:
+                    res["names_after"] = None        # the focus object is not in the reloaded tree
                 res["tree_diff"] = diff_snapshots(snap_before, snapshot(reloaded, griffe))
                 same = {}
                 for form, full in (("min", False), ("full", True)):
